@@ -27,12 +27,7 @@ EXPECTED = [
 
 
 def build(S, tier, seed):
-    S.install(loops={purge.PARSE_PATH_LOOP: purge.parse_path_loop_annot()})
-    S.verify(purge.PathOfBackupCopy())
-    S.verify(purge.RemoveFile2())
-    S.verify(purge.RemoveFile2NoFaults(), prefix='nofault/remove_file2')
-    S.install([purge.RemoveFile2()])
-    S.verify(purge.RemoveFileIfExists(), active=[purge.RemoveFile2().key])
+    purge.leaf_vcs(S)
     purge.empty_vc(S, dry_run=False)
     purge.rm_vc(S)
 
